@@ -372,7 +372,7 @@ func runC03(c *Ctx) {
 			if upd := c.MethodOpt(cellT, true, "Update"); upd != nil {
 				importPremises(c, "R03.3", "cell-width premise: ", "a cell that prints text but is recorded as 0 wide makes its lines wider than the column", func(o *Ob) bool {
 					return strings.Contains(o.Construct, "width of 0")
-				}, func() { c18MetricsAssigned(c, upd, c.FieldOpt(cellT, "width"), c.FieldOpt(cellT, "height")) })
+				}, func() { c18MetricsAssigned(c, upd, c.FieldOpt(cellT, "width"), c.FieldOpt(cellT, "height"), false) })
 			}
 		}
 		// ... and what is printed for a cell is what was measured: the lines the layout pass measured are the cell's
